@@ -687,6 +687,11 @@ def plant_all(decls):
             m = copy.deepcopy(decls)
             m[i]["values"].append(m[i]["values"][0])
             yield "P0005", "type-enum", m, [d["values"][0]]
+            # the same value three and four times, in other letter cases: every diagnostic names the FIRST spelling
+            m = copy.deepcopy(decls)
+            v0 = d["values"][0]
+            m[i]["values"] += [v0.upper(), v0.swapcase(), v0]
+            yield "P0005", "type-enum-repeated", m, [v0]
         if k == "config":
             for j, p in enumerate(d["programs"]):
                 m = copy.deepcopy(decls)
